@@ -29,7 +29,7 @@ Theorem C12_match_pattern_spec_generic :
     match_pattern_anchored_with lw rsv s pat = Ok (glob_matches_with lw rsv s pat).
 Proof. exact anchored_spec. Qed.
 
-(* ---- matchPattern, repaired so that the pinned suite stays green (coq/C12/fix.patch): for ALL byte strings it
+(* ---- matchPattern, repaired so that the pinned suite stays green (coq/C12/fix.patch, in /repo as ef9a8be47): for ALL byte strings it
         never panics, never matches a keyword in any letter case, and answers "some prefix of the name matches";
         it is exact for every pattern that ends in a star. ---- *)
 Theorem C12_match_pattern_fixed_total_prefix_match :
@@ -42,7 +42,7 @@ Theorem C12_match_pattern_fixed_trailing_star :
     match_pattern_fixed s (pat ++ [star]) = Ok (glob_matches s (pat ++ [star])).
 Proof. exact thm_fixed_trailing. Qed.
 
-(* ---- matchPattern, pinned code ---- *)
+(* ---- matchPattern, the code before ef9a8be47 (match_pattern_pinned) ---- *)
 
 (* Full statement (the one the property needs):
      forall s pat, alternating pat = true -> match_pattern_pinned s pat = Ok (glob_matches s pat).
@@ -109,7 +109,7 @@ Theorem C12_glob_equiv_expansion :
   forall p, wf_from mt [] p -> run keq mt p = Some (run_plain keq (expand keq mt p)).
 Proof. exact glob_equiv_expansion. Qed.
 
-(* the same for what d2ir runs (strings.EqualFold, the pinned matchPattern), with the decidable side condition *)
+(* the same for what d2ir runs (strings.EqualFold, matchPattern as of /repo ef9a8be47), with the decidable side condition *)
 Theorem C12_glob_equiv_expansion_d2ir :
   forall p, wf_progb p = true -> run keq_go mt_go p = Some (run_plain keq_go (expand keq_go mt_go p)).
 Proof. exact glob_equiv_expansion_go. Qed.
